@@ -58,10 +58,41 @@ fn main() {
         }));
     }
     sink.merge(struct_sweep(&run, &targets, &magic_recs, 0, &sfx, 48, &extra));
-    for style in [1u8, 3, 4] {
+    for style in [1u8, 3, 4, 6, 7, 8] {
         use vcommon::en::with_fill_style as wfs;
         sink.merge(struct_sweep(&run, &targets, &wfs(style, || cat::tls_records(2, false)), 0, &sfx, 48, &extra));
     }
+
+    let with_ext: Vec<vcommon::en::W> = cat::hellos_with_extension_lists()
+        .into_iter()
+        .filter(|w| w.lens.first().map_or(false, |l| l.label == "hs_len"))
+        .step_by(3)
+        .map(|m| {
+            cat::record(0x16, 0x0303, |w| {
+                w.append(&m);
+            })
+        })
+        .collect();
+    sink.merge(struct_sweep(&run, &targets, &with_ext, 0, &sfx, 48, &extra));
+    // every payload size 0..16640 for the variable-size message kinds
+    let b_app = |n: usize| cat::record(0x17, 0x0303, |w| {
+        w.fill(n, 0x17);
+    });
+    sink.merge(size_sweep(&run, &targets, 16640, &b_app, &extra));
+    let b_fin = |n: usize| cat::record(0x16, 0x0303, |w| {
+        w.append(&cat::hs(20, |w| {
+            w.fill(n, 0xf1);
+        }));
+    });
+    sink.merge(size_sweep(&run, &targets, 16636, &b_fin, &extra));
+    let b_hb = |n: usize| cat::record(0x18, 0x0303, |w| {
+        w.u8(1);
+        w.block(2, "hb_payload_len", |w| {
+            w.fill(n, 0xb0);
+        });
+        w.fill((16637 - n).min(16), 0);
+    });
+    sink.merge(size_sweep(&run, &targets, 16637, &b_hb, &extra));
 
     // (2) all 256 content types, a few payloads each; record versions
     let mut sweeps: Vec<vcommon::en::W> = Vec::new();
